@@ -406,6 +406,20 @@ def r13_2(rep, M, rid):
             if isinstance(val, ast.Constant):
                 rep.violation(rid, construct, f"`{kw}` is the literal {val.value!r}", M.where(f2, call))
                 continue
+            # the value must originate from the same-named parameter of SBC.get_clusters (followed up the call graph)
+            if kw in ("bond_threshold", "radii"):
+                from ..dataflow import entry_roots
+                roots = entry_roots(M, f2, val)
+                gcq = "matid.clustering.sbc.SBC.get_clusters"
+                prm = {r[1] for r in roots if r[0] == gcq}
+                attr_ok = any(r[0] == "<attr>" and r[1].endswith("._" + kw) for r in roots)
+                if kw in prm or (attr_ok and not prm):
+                    rep.ok(rid, construct + f" <- get_clusters({kw})")
+                else:
+                    rep.violation(rid, construct, f"`{kw}={norm(val)}` originates from {sorted(prm) or sorted(r[1] for r in roots)[:3]}, not from the "
+                                  f"`{kw}` the clustering was run with: the shortcut evaluates the cluster with another {kw.replace('_', ' ')}",
+                                  M.where(f2, call))
+                continue
             rep.ok(rid, construct)
     rep.floor(rid, 3 + 4)
 
